@@ -115,23 +115,37 @@ def gen_cases(rng, thorough):
                         ["scalar", "image", "mask", "trace", "contour"],
                         ["scalar", "uint", "trace"]]),
                     old_logs=old_logs, tables=tables,
-                    cmp5=rng.random() < 0.5)
+                    cmp5=rng.random() < 0.5,
+                    # a file-based and an internal basin in half of the inputs
+                    basin=rng.random() < 0.5)
 
-    reps = 3 if thorough else 1
+    # rep 0: every option flipped; rep 1: the DEFAULT option values (small
+    # inputs); rep 2 (thorough): defaults again on bigger inputs
+    reps = 3 if thorough else 2
+    base_rtdc_in = rtdc_in
+
     for rep in range(reps):
+        if rep == 1:
+            def rtdc_in(nev=None, kinds=None, **kw):
+                return base_rtdc_in(nev=nev or 5,
+                                    kinds=kinds or ["scalar", "image",
+                                                    "mask"], **kw)
+        else:
+            rtdc_in = base_rtdc_in
         so = rng.random() < 0.7
         st = rng.random() < 0.7
         cases.append(dict(task="compress", inputs=[rtdc_in(old_logs=True)],
                           params=dict(force=(rep == 0)),
                           stale_out=[so], stale_tmp=[st]))
         cases.append(dict(task="repack",
-                          inputs=[rtdc_in(old_logs=rng.random() < .5)],
+                          inputs=[rtdc_in(old_logs=rng.random() < .5,
+                                          basin=True)],
                           params=dict(strip_logs=rng.random() < 0.3,
                                       strip_basins=(rep == 0)),
                           stale_out=[rng.random() < 0.5],
                           stale_tmp=[rng.random() < 0.5]))
         cases.append(dict(task="condense",
-                          inputs=[rtdc_in(old_logs=True, kinds=[
+                          inputs=[rtdc_in(old_logs=True, basin=True, kinds=[
                               "scalar", "image", "mask", "contour"])],
                           params=dict(
                               store_ancillary_features=rng.random() < .7,
@@ -179,6 +193,7 @@ def gen_cases(rng, thorough):
                                       skip_final=(rep == 1)),
                           stale_out=[rng.random() < 0.5],
                           stale_tmp=[rng.random() < 0.5]))
+    rtdc_in = base_rtdc_in
     # requested output names with an arbitrary suffix whose stem is the stem
     # of an input ("in0.repacked", "in0", "in0.b.c", "in0.RTDC", ...): legal,
     # they do not alias the input (the suffix .rtdc is appended)
@@ -209,10 +224,19 @@ def gen_cases(rng, thorough):
              stale_out=[rng.random() < 0.5, False], stale_tmp=[False, False]),
         dict(task="join", fixtures=list(TDMS_SMALL), params={},
              stale_out=[False], stale_tmp=[True]),
-        # (condense of a .tdms input is not used: its result is branded by
-        # the untagged dclab build only and cannot be re-opened here)
+        # results that the untagged dclab build of this sandbox cannot
+        # re-open are judged at the HDF5 level (h5_diff)
+        dict(task="condense", fixtures=[TDMS_SMALL[0]],
+             params=dict(store_ancillary_features=False),
+             stale_out=[True], stale_tmp=[False]),
+        # a tdms measurement with images (avi) and contours: the
+        # skip_empty_image_events branches
+        dict(task="tdms2rtdc", fixtures=["fmt-tdms_fl-image_2016"],
+             params=dict(dir_mode=False, skip_initial=True, skip_final=True),
+             stale_out=[False], stale_tmp=[True]),
     ]
-    cases += extra if thorough else [rng.choice(extra)]
+    # (the image measurement has ~6000 operations: thorough only)
+    cases += extra if thorough else extra[:3]
     # check_suffix=False: inputs that do not end in .rtdc (h5py-level tasks)
     for task in (["compress", "repack"] if thorough
                  else [rng.choice(["compress", "repack"])]):
@@ -267,8 +291,31 @@ def _write_input(path, spec_in):
     if spec_in.get("cmp5"):
         import hdf5plugin
         kw = dict(hdf5plugin.Zstd(clevel=5))
+    run_id = "verif-run-%d" % spec_in["seed"]
+    spec["meta"]["experiment"]["run identifier"] = run_id
     gen.write_spec(path, spec, logs=logs, tables=tables,
                    compression_kwargs=kw)
+    if spec_in.get("basin"):
+        import numpy as np
+        from dclab import RTDCWriter
+        n = spec_in["nevents"]
+        path = pathlib.Path(path)
+        bpath = path.with_name(path.name.split(".")[0] + "_basin.rtdc")
+        bs = gen.random_dataset_spec(rng, n, kinds=(), run_id=run_id)
+        bs["features"] = {"userdef3": gen.dyadic(rng, n)}
+        gen.write_spec(bpath, bs)
+        with RTDCWriter(path, mode="append") as hw:
+            hw.store_basin(basin_name="file basin", basin_type="file",
+                           basin_format="hdf5", basin_locs=[bpath.name],
+                           basin_feats=["userdef3"], verify=False)
+            k = max(1, n // 2)
+            hw.store_basin(basin_name="internal basin",
+                           basin_type="internal", basin_format="h5dataset",
+                           basin_locs=["basin_events"],
+                           basin_feats=["userdef4"],
+                           internal_data={"userdef4": np.arange(
+                               k, dtype=float)},
+                           basin_map=np.arange(n) % k, verify=False)
 
 
 def _stale_output(path):
@@ -319,7 +366,7 @@ def build_template(case, root):
                 p = w / case["in_names"][j]
             _write_input(p, dict(spec_in, order=j))
             ins.append(p)
-        all_inputs = list(ins)
+        all_inputs = list(ins) + sorted(w.glob("*_basin.rtdc"))
         if task == "split":
             nout = len(case["stale_out"])
             spd = w if case["params"].get("same_dir") else w / "sp"
@@ -532,11 +579,34 @@ def record_job(idx):
             try:
                 viol[i] = check_violations(os.path.join(w, o))
             except BaseException as e:  # noqa (dclab: BaseException subclasses)
-                viol[i] = ["check_dataset failed: %r" % (e,)]
+                if type(e).__name__ == "OldFormatNotSupportedError":
+                    viol[i] = [H5ONLY]     # sandbox: judge with h5_diff
+                else:
+                    viol[i] = ["check_dataset failed: %r" % (e,)]
     return dict(idx=idx, ref=d, trace=trace, kinds=kinds, details=details,
                 exit_calls=rec.exit_calls,
                 err=err, others=others, viol=viol, secs=t_task,
                 obs=observe(idx, w, ref_w=None))
+
+
+def loadable(path):
+    import dclab
+    try:
+        with dclab.new_dataset(path) as ds:
+            n = len(ds)
+            return all(len(ds[f]) == n for f in ds.features_innate
+                       if f != "trace")
+    except BaseException as e:  # noqa
+        if type(e).__name__ == "OldFormatNotSupportedError":
+            import h5py
+            try:
+                with h5py.File(path, "r") as h5:
+                    h5.visititems(lambda n, o: o[()] if isinstance(
+                        o, h5py.Dataset) else None)
+                return True
+            except BaseException:  # noqa
+                return False
+        return False
 
 
 def check_violations(path):
@@ -548,14 +618,74 @@ def check_violations(path):
 _TS = re.compile(r"\d{4}-\d{2}-\d{2}_\d{2}\.\d{2}\.\d{2}")
 
 
+H5ONLY = "__h5only__"
+
+
+def h5_diff(path, refpath):
+    """Completeness at the HDF5 level (for results that the untagged dclab
+    build of this sandbox refuses to re-open): same groups and datasets with
+    the same shapes and data, same attributes (time stamps, the random run
+    identifier suffix and dclab-* job logs aside)."""
+    import h5py
+    import numpy as np
+    try:
+        with h5py.File(path, "r") as ha, h5py.File(refpath, "r") as hb:
+            def names(h):
+                out = {}
+                h.visititems(lambda n, o: out.__setitem__(
+                    _TS.sub("<ts>", n), o))
+                return out
+            na, nb = names(ha), names(hb)
+            if sorted(na) != sorted(nb):
+                return "HDF5 objects differ: %s" % sorted(
+                    set(na) ^ set(nb))[:5]
+            for n in sorted(na):
+                a, b = na[n], nb[n]
+                if isinstance(a, h5py.Dataset) != isinstance(b, h5py.Dataset):
+                    return "object kind of %s differs" % n
+                if isinstance(a, h5py.Dataset):
+                    if a.shape != b.shape:
+                        return "dataset %s has shape %s, complete result %s" \
+                            % (n, a.shape, b.shape)
+                    if n.startswith("logs/dclab-"):
+                        continue
+                    va, vb = a[()], b[()]
+                    same = (va.tobytes() == vb.tobytes()) if hasattr(
+                        va, "tobytes") else (va == vb)
+                    if not same and not (
+                            va.dtype.kind == "f" and np.array_equal(
+                                va, vb, equal_nan=True)):
+                        return "dataset %s differs" % n
+            ka = set(ha.attrs) ^ set(hb.attrs)
+            if ka:
+                return "attributes differ: %s" % sorted(ka)[:5]
+            for k in ha.attrs:
+                if k in ("experiment:run identifier",):
+                    continue
+                if not np.all(np.asarray(ha.attrs[k] == hb.attrs[k])):
+                    return "attribute %s differs" % k
+    except BaseException as e:  # noqa
+        if isinstance(e, (KeyboardInterrupt, SystemExit)):
+            raise
+        return "not a complete HDF5 file: %r" % (e,)
+    return None
+
+
 def complete_diff(path, refpath, ref_viol):
     """None when the file at `path` is loadable and has the content of the
     fault-free result `refpath`; else a description."""
     import dclab
     import numpy as np
     from . import gen
+    if list(ref_viol) == [H5ONLY]:
+        return h5_diff(path, refpath)
     try:
         with dclab.new_dataset(path) as ds, dclab.new_dataset(refpath) as dr:
+            if sorted(ds.features_basin) != sorted(dr.features_basin) \
+                    or len(ds.basins) != len(dr.basins):
+                return "basins %s (%d) vs %s (%d)" % (
+                    sorted(ds.features_basin), len(ds.basins),
+                    sorted(dr.features_basin), len(dr.basins))
             d = gen.compare_datasets(ds, dr, check_meta=False,
                                      check_logs=False)
             if d:
@@ -668,12 +798,13 @@ def fault_job(job):
                 rec.exit_fault_at = k
             else:
                 rec = ct.Recorder(w, fault_at=k, fault_kind=kind)
+            rec.exc_kind = job[4] if len(job) > 4 else None
             ct.set_recorder(rec)
             exc = None
             try:
                 run_task(case, info["lay"], w)
                 code = 0
-            except ct.InjectedFault as e:
+            except ct.INJECTED as e:
                 code, exc = 3, repr(e)
             except BaseException as e:  # noqa
                 code, exc = 4, repr(e)
@@ -887,7 +1018,8 @@ def judge(run, idx, res):
     case, info = CASES[idx], INFO[idx]
     k, kind = res["job"][1], res["job"][2]
     obs = res["obs"]
-    cdesc = case_desc(idx, k, kind)
+    cdesc = case_desc(idx, k, kind,
+                      res["job"][4] if len(res["job"]) > 4 else None)
     fails = []
     for i, v in enumerate(obs["out"]):
         if v == 1:
@@ -933,9 +1065,11 @@ def op_desc(info, k, kind=None):
     return "past the end"
 
 
-def case_desc(idx, k, kind):
+def case_desc(idx, k, kind, exc=None):
     c = dict(CASES[idx])
     c.update(k=k, kind=kind)
+    if exc:
+        c["exc"] = exc
     return c
 
 
@@ -1021,10 +1155,13 @@ def _run(run):
                 idx, case["task"], info["err"][:200]))
             fails = []
             for i in range(nout):
-                if ro["out"][i] != 0 and not (
-                        case["stale_out"][i] and case["task"] == "split"):
-                    fails.append("task failed (%s) but left %s" % (
-                        info["err"], info["lay"]["outs"][i]))
+                # a stale complete output that survives, or a complete new
+                # one after a late failure, is fine; an unreadable one is not
+                if ro["out"][i] != 0 and ro["new"][i] and not loadable(
+                        os.path.join(info["ref"], "w",
+                                     info["lay"]["outs"][i])):
+                    fails.append("task failed (%s) and left an unreadable "
+                                 "%s" % (info["err"], info["lay"]["outs"][i]))
             if case.get("out_name"):
                 fails.append("the task fails (%s) for the legal output name "
                              "%r (result expected at %s)" % (
@@ -1101,27 +1238,48 @@ def _run(run):
     else:
         total_budget = int(os.environ.get("VERIF_C10_BUDGET", "2600"))
         per_case = max(20, total_budget // (2 * max(1, ncases)))
-    first, second = [], []
+    first, second, floor = [], [], []
+
+    def exc_for(idx, k):
+        """deterministic rotation over the exception types"""
+        return ct.EXC_KINDS[(3 * idx + k) % len(ct.EXC_KINDS)]
+
     for idx, info in enumerate(INFO):
         if info["err"] is not None:
             continue
+        lay = info["lay"]
+        own = set(lay["temps"]) | set(lay["outs"])
+        # FLOOR: a fixed, deterministic set that always runs: every open for
+        # writing, every close of an output/temporary file, every rename and
+        # unlink of every case - killed before it, failing (with rotating
+        # exception types), failing after it was performed
+        for k, (kd, rel, _det) in enumerate(info["details"]):
+            if kd in ("open-w", "open-a", "rename", "unlink", "raw-open") \
+                    or (kd == "close" and rel in own):
+                floor += [(idx, k, "kill", False, None),
+                          (idx, k, "raise", False, exc_for(idx, k)),
+                          (idx, k, "raise-after", False,
+                           exc_for(idx, k + 1))]
+        # an exception out of RTDCWriter.__exit__ (rectify_metadata /
+        # version_brand)
+        floor += [(idx, j, "exit-raise", False, exc_for(idx, j))
+                  for j in range(info.get("exit_calls", 0))]
         must, extra = sample_ks(info, run.rng, run.thorough, per_case)
-        first += [(idx, k, kind) for k in must
-                  for kind in KINDS + ("raise-after",)]
-        second += [(idx, k, kind) for k in extra for kind in KINDS]
-        # "disk full": half of the slice is written, then OSError
+
+        def var():
+            return run.rng.choice(ct.EXC_KINDS) if run.rng.random() < 0.5 \
+                else None
+        first += [(idx, k, kind, False, var() if kind != "kill" else None)
+                  for k in must for kind in KINDS + ("raise-after",)]
+        second += [(idx, k, kind, False, var() if kind != "kill" else None)
+                   for k in extra for kind in KINDS]
+        # "disk full": half of the slice is written, then OSError(ENOSPC)
         part = [k for k in list(must) + list(extra)
                 if info["kinds"][k] == "dset-write"
                 and (run.thorough or run.rng.random() < 0.5)]
         run.rng.shuffle(part)
-        first += [(idx, k, "partial") for k in part[:6]]
-        second += [(idx, k, "partial") for k in part[6:]]
-        # an exception out of RTDCWriter.__exit__ (rectify_metadata /
-        # version_brand)
-        first += [(idx, j, "exit-raise")
-                  for j in range(info.get("exit_calls", 0))]
-    # structural positions of all cases first, then the rest, each in random
-    # order: whatever part is done when the time is up is a fair sample
+        first += [(idx, k, "partial", False, "ENOSPC") for k in part[:6]]
+        second += [(idx, k, "partial", False, "ENOSPC") for k in part[6:]]
     run.rng.shuffle(first)
     run.rng.shuffle(second)
     # a trace the protocol rejects: faults around the rejected operation
@@ -1132,45 +1290,82 @@ def _run(run):
         if info["err"] is None and pos is not None and pos >= 0:
             n = len(info["kinds"])
             for k in range(max(0, pos - 3), min(n, pos + 6)):
-                front += [(idx, k, kind) for kind in ("kill", "raise",
-                                                      "raise-after")]
-    front = [j for j in front]
-    seen = set(front)
-    jobs = front + [j for j in first + second if j not in seen]
+                front += [(idx, k, kind, False, None)
+                          for kind in ("kill", "raise", "raise-after")]
+    floor = front + floor
+    seen = set(j[:3] for j in floor)
+    rest = []
+    for j in first + second:
+        if j[:3] not in seen:
+            seen.add(j[:3])
+            rest.append(j)
     # every tenth fault run is followed by an unharmed re-run on the
     # leftovers (C10_state_after_fault_is_restartable)
-    jobs = [j + (True,) if q % 10 == 3 else j for q, j in enumerate(jobs)]
-    limit = float(os.environ.get("VERIF_C10_FAULT_SECS",
-                                 "840" if run.thorough else "30"))
-    t_start = time.time()
-    results = []
+    floor = [j[:3] + (q % 10 == 3,) + j[4:] for q, j in enumerate(floor)]
+    rest = [j[:3] + (q % 10 == 3,) + j[4:] for q, j in enumerate(rest)]
     import multiprocessing
-    it = _POOL.imap_unordered(_job, [("fault_job", j) for j in jobs],
-                              chunksize=1)
-    while len(results) < len(jobs):
-        left = limit - (time.time() - t_start)
-        if left <= 0:
-            break
-        try:
-            res = it.next(timeout=left)
-        except multiprocessing.TimeoutError:
-            break
-        except StopIteration:
-            break
-        if "crash" in res:
-            run.broken.append(("harness(C10)", "fault run crashed: %s" %
-                               res["crash"]))
-            jobs = [j for j in jobs if j[:3] != tuple(res["job"])[:3]]
-        else:
-            results.append(res)
-    # deterministic order of evaluation / reporting
-    order = {j[:3]: n for n, j in enumerate(jobs)}
-    results.sort(key=lambda r: order.get(tuple(r["job"])[:3], 0))
-    if len(results) < len(jobs):
-        run.notes.append("fault enumeration stopped after %.0f s: %d of %d "
-                         "sampled fault runs done (machine load)" % (
-                             limit, len(results), len(jobs)))
-        restart_pool()
+
+    def consume(jobs, limit):
+        t_start = time.time()
+        out = []
+        it = _POOL.imap_unordered(_job, [("fault_job", j) for j in jobs],
+                                  chunksize=1)
+        ncrash = 0
+        while len(out) + ncrash < len(jobs):
+            left = limit - (time.time() - t_start)
+            if left <= 0:
+                break
+            try:
+                res = it.next(timeout=left)
+            except (multiprocessing.TimeoutError, StopIteration):
+                break
+            if "crash" in res:
+                ncrash += 1
+                run.broken.append(("harness(C10)", "fault run crashed: %s" %
+                                   res["crash"]))
+            else:
+                out.append(res)
+        complete = (len(out) + ncrash == len(jobs))
+        if not complete:
+            restart_pool()
+        # deterministic order of evaluation / reporting
+        order = {j[:3]: n for n, j in enumerate(jobs)}
+        out.sort(key=lambda r: order.get(tuple(r["job"])[:3], 0))
+        return out, complete
+
+    # phase 1: the floor - not bounded by the time box; a hard cap only
+    # guards against a hung machine, and missing it is a broken obligation
+    cap = float(os.environ.get("VERIF_C10_FLOOR_CAP",
+                               "1500" if run.thorough else "300"))
+    results, complete = consume(floor, cap)
+    nfloor = len(results)
+    if not complete:
+        run.broken.append((
+            "correspondence-floor(C10)",
+            "only %d of the %d mandatory fault runs (opens for writing, "
+            "closes, renames, unlinks of every case) finished within %.0f s"
+            % (nfloor, len(floor), cap)))
+    _tick(run, "fault-floor(%d of %d)" % (nfloor, len(floor)))
+    # phase 2: the sampled rest within the time box
+    if run.thorough:
+        limit = float(os.environ.get("VERIF_C10_FAULT_SECS", "840"))
+    else:
+        limit = float(os.environ.get(
+            "VERIF_C10_FAULT_SECS",
+            str(min(30.0, max(8.0, 72.0 - (time.time() - run.t0))))))
+    more, complete2 = consume(rest, limit) if rest else ([], True)
+    results += more
+    jobs = floor + rest
+    run.extra["fault_runs"] = dict(floor_done=nfloor, floor_total=len(floor),
+                                   sampled_done=len(more),
+                                   sampled_total=len(rest))
+    print("C10 fault runs: floor %d/%d, sampled %d/%d" % (
+        nfloor, len(floor), len(more), len(rest)))
+    if not complete2:
+        run.notes.append("sampled fault enumeration stopped after %.0f s: %d "
+                         "of %d done (the floor of %d ran completely: %s)" % (
+                             limit, len(more), len(rest), len(floor),
+                             complete))
     _tick(run, "fault-runs(%d of %d)" % (len(results), len(jobs)))
     rendered = []
     for res in results:
@@ -1202,7 +1397,10 @@ def _run(run):
         case, info = CASES[idx], INFO[idx]
         obs = res["obs"]
         fired = (res["code"] != 0) or res["child"].get("fired", False)
-        cd = case_desc(idx, k, kind)
+        exc = res["job"][4] if len(res["job"]) > 4 else None
+        cd = case_desc(idx, k, kind, exc)
+        if kind != "kill":
+            run.count("exception:%s" % (exc or "EIO"))
         run.record_case(cd, fired, sample=(k > 5 and len(run.samples) < 3))
         run.count("fault:%s" % kind)
         run.count("fault-at:%s" % (info["kinds"][k] if kind != "exit-raise"
@@ -1228,7 +1426,7 @@ def _run(run):
         # of files that are open happen (no handler opens, renames, deletes)
         bad_after = [a for a in res["child"].get("after", [])
                      if a[0] in ("rename", "unlink", "open-w", "open-a",
-                                 "open-r")
+                                 "raw-open")
                      and not (a[0] == "unlink" and a[1] in lay["temps"])]
         if kind != "kill" and bad_after and res["code"] != 0:
             model = model + ["unwind: only writes and closes"]
@@ -1449,6 +1647,58 @@ def names_check(run):
                 dout, common.zlist([ord(c) for c in name])))
     finally:
         os.chdir(cwd)
+    # ---- lists of outputs (paths_out + paths_temp are all guarded) and
+    # file-level symlinks (oracle only)
+    lcases, limpl, lrend = [], [], []
+    try:
+        for q in range(max(40, n // 5)):
+            in_names = ["in.rtdc"] + (["in2.rtdc"] if q % 2 else [])
+            if q % 6 == 0:
+                in_names = ["in.rtdc~", "in2.rtdc"]
+            outs = []
+            for _ in range(run.rng.choice([2, 2, 3])):
+                nm = run.rng.choice(["ok", "ok2.x", "in", "in.rtdc", "in2",
+                                     "in.x", gen_name(run.rng),
+                                     gen_name(run.rng)])
+                outs.append([run.rng.choice(forms)[0], nm])
+            case = dict(kind="names-list", inputs=in_names, form_in="A",
+                        outs=outs)
+            res = names_run_list(cli_common, d, case, content)
+            lcases.append(case)
+            run.record_case(case, True, sample=False)
+            run.count("names:list-of-outputs")
+            if res["refused"]:
+                run.count("names:list-refused")
+            for f in res["fails"]:
+                run.oracle_failure(case, f, None)
+            limpl.append(res["flat"])
+            lrend.append("(%s, %s)" % (
+                common.clist(["(1, %s)" % common.zlist([ord(c) for c in nm])
+                              for nm in in_names]),
+                common.clist(["(%d, %s)" % (dict(forms)[f], common.zlist(
+                    [ord(c) for c in nm])) for f, nm in outs])))
+        for q in range(12):
+            case = dict(kind="names-symlink",
+                        link=run.rng.choice(["lnk.rtdc", "lnk.rtdc~"]),
+                        name="lnk" + run.rng.choice(["", ".rtdc"]))
+            res = names_run_symlink(cli_common, d, case, content)
+            run.record_case(case, True, sample=False)
+            run.count("names:file-symlink")
+            for f in res["fails"]:
+                run.oracle_failure(case, f, None)
+    finally:
+        os.chdir(cwd)
+    lmodel = common.coq_map(
+        run.scratch, "c10nameslist", NAMES_HEADER,
+        "(fun q : list fpath * list fpath => "
+        "match setup_paths_list (fst q) (snd q) with | None => [-2] "
+        "| Some ots => flat_map (fun ot => snd (fst ot) ++ [-1] ++ "
+        "snd (snd ot) ++ [-3]) ots end)", lrend)
+    for c, m, i in zip(lcases, lmodel, limpl):
+        run.corr_checked += 1
+        if m != i:
+            run.mismatch(c, m, i, what="setup_task_paths with a list of "
+                                       "outputs: names / refusal")
     model = common.coq_map(
         run.scratch, "c10names", NAMES_HEADER,
         "(fun q : list fpath * (Z * list Z) => "
@@ -1481,6 +1731,89 @@ def names_check(run):
         if m != i:
             run.mismatch(dict(kind="names-suffix", name=nm), m, i,
                          what="input suffix check")
+
+
+def names_run_list(cli_common, d, case, content):
+    """setup_task_paths with lists of inputs and outputs."""
+    def styled(form, nm):
+        if form.startswith("rel:"):
+            os.chdir(d)
+            return pathlib.Path(form[4:]) / nm
+        return d / form / nm
+    in_names = case["inputs"]
+    for nm in in_names:
+        (d / "A" / nm).write_bytes(content)
+    A = os.path.realpath(d / "A")
+    must_refuse = False
+    for form, nm in case["outs"]:
+        same = os.path.realpath(d / form.replace("rel:", "")) == A
+        pred = predicted_out_name(nm)
+        if same and any(pred == x or pred + "~" == x for x in in_names):
+            must_refuse = True
+    fails, refused, flat = [], None, [-2]
+    allowed = [".rtdc"] + [pathlib.PurePosixPath(x).suffix for x in in_names]
+    try:
+        pin, pout, ptmp = cli_common.setup_task_paths(
+            [d / "A" / x for x in in_names],
+            [styled(f, nm) for f, nm in case["outs"]],
+            allowed_input_suffixes=allowed)
+    except ValueError as e:
+        refused = e
+    for nm in in_names:
+        f = d / "A" / nm
+        if not f.exists() or f.read_bytes() != content:
+            fails.append("setup_task_paths(%s -> %s) removed or changed the "
+                         "input file %s" % (in_names, case["outs"], nm))
+    if must_refuse and refused is None:
+        fails.append("one of the outputs %s (or its temporary name) is an "
+                     "input of %s but setup_task_paths did not refuse" % (
+                         case["outs"], in_names))
+    if refused is not None and not must_refuse:
+        fails.append("setup_task_paths refused the legal outputs %s for "
+                     "inputs %s (%r)" % (case["outs"], in_names, refused))
+    if refused is None:
+        flat = []
+        for (form, nm), po, pt in zip(case["outs"], pout, ptmp):
+            flat += [ord(c) for c in po.name] + [-1] + [
+                ord(c) for c in pt.name] + [-3]
+            if po.name != predicted_out_name(nm):
+                fails.append("requested output %r is written to %r, the "
+                             "name theorems predict %r" % (
+                                 nm, po.name, predicted_out_name(nm)))
+    for nm in in_names:
+        try:
+            (d / "A" / nm).unlink()
+        except OSError:
+            pass
+    return dict(fails=fails, refused=refused is not None, flat=flat)
+
+
+def names_run_symlink(cli_common, d, case, content):
+    """An output path (or its temporary path) that is a symbolic link to the
+    input: whatever setup does (refuse, or remove the link), the input file
+    itself must survive."""
+    inp = d / "A" / "in.rtdc"
+    inp.write_bytes(content)
+    link = d / "A" / case["link"]
+    if link.is_symlink() or link.exists():
+        link.unlink()
+    os.symlink(inp, link)
+    fails = []
+    try:
+        cli_common.setup_task_paths(inp, d / "A" / case["name"],
+                                    allowed_input_suffixes=[".rtdc"])
+    except ValueError:
+        pass
+    if not inp.exists() or inp.read_bytes() != content:
+        fails.append("setup_task_paths(in.rtdc -> %r) with %s -> in.rtdc "
+                     "removed or changed the input" % (case["name"],
+                                                       case["link"]))
+    for f in (link, inp):
+        try:
+            f.unlink()
+        except OSError:
+            pass
+    return dict(fails=fails)
 
 
 def names_run(cli_common, d, case, content):
@@ -1641,9 +1974,11 @@ def natural_job(job):
                     if feat != "trace" and len(ds[feat]) != n:
                         raise ValueError("feature %s truncated" % feat)
                     _ = ds[feat][0] if feat != "trace" else None
-            if failed and not (case["task"] in ("split", "tdms2rtdc")):
-                fails.append("task failed but created output %s" % o)
+            # (a complete, loadable output after a late failure satisfies
+            # the property)
         except BaseException as e:  # noqa
+            if type(e).__name__ == "OldFormatNotSupportedError":
+                continue            # sandbox: untagged build
             fails.append("output %s is not loadable: %r" % (o, e))
     for p in lay["all_inputs"]:
         q = os.path.join(w, p)
@@ -1768,7 +2103,12 @@ def strace_crosscheck(run):
         return
     idxs = list(range(len(CASES)))
     if not run.thorough:
-        idxs = run.rng.sample(idxs, min(2, len(idxs)))
+        # one case per task (random among the task's cases)
+        by_task = {}
+        for i in idxs:
+            if INFO[i].get("err") is None:
+                by_task.setdefault(CASES[i]["task"], []).append(i)
+        idxs = [run.rng.choice(v) for _t, v in sorted(by_task.items())]
     for res in pmap("strace_job", idxs):
         if "crash" in res:
             res = dict(idx=res["idx"], skipped=res["crash"][-300:])
@@ -1803,14 +2143,14 @@ class _MiniRun:
 
 def _strip(case):
     c = dict(case)
-    for key in ("k", "kind", "scenario"):
+    for key in ("k", "kind", "scenario", "exc", "rerun"):
         c.pop(key, None)
     return c
 
 
 def replay(payload):
     case = payload.get("case")
-    if case and case.get("kind") == "names":
+    if case and str(case.get("kind", "")).startswith("names"):
         from dclab.cli import common as cli_common
         d = pathlib.Path(tempfile.mkdtemp(
             prefix="verif-C10-names-",
@@ -1823,7 +2163,14 @@ def replay(payload):
             os.symlink(d / "A", d / "L")
             case = dict(dict(inputs=["in.rtdc"], form_in="A", form_out="A"),
                         **case)
-            res = names_run(cli_common, d, case, b"input data")
+            if case["kind"] == "names-list":
+                res = names_run_list(cli_common, d, case, b"input data")
+            elif case["kind"] == "names-symlink":
+                res = dict(names_run_symlink(cli_common, d, case,
+                                             b"input data"),
+                           refused=None, flat=None)
+            else:
+                res = names_run(cli_common, d, case, b"input data")
             print("case:", json.dumps(case))
             print("refused:", res["refused"], "observation:", res["flat"])
             for f in res["fails"]:
@@ -1870,7 +2217,8 @@ def replay(payload):
             if case["kind"] in ("sigkill", "sigint", "sigterm"):
                 res = sigkill_job((0, case["k"], case["kind"]))
             else:
-                res = fault_job((0, case["k"], case["kind"]))
+                res = fault_job((0, case["k"], case["kind"], False,
+                                 case.get("exc")))
             print("fault: %s at operation %d (%s)" % (
                 case["kind"], case["k"],
                 op_desc(info, case["k"], case["kind"])))
@@ -1932,17 +2280,21 @@ def search(run, broken):
         import multiprocessing
         _POOL = multiprocessing.get_context("fork").Pool(common.NCPU)
     try:
-        jobs = [(idx, k, kind) for idx, info in enumerate(INFO)
-                if info.get("err") is None
-                for k in range(len(info["kinds"])) for kind in KINDS]
+        def structural(j):
+            kd = INFO[j[0]]["kinds"][j[1]]
+            return kd in ("rename", "close", "open-a", "open-w", "unlink",
+                          "raw-open")
+        alljobs = [(idx, k, kind, False,
+                    ct.EXC_KINDS[(idx + k) % len(ct.EXC_KINDS)]
+                    if kind == "raise" else None)
+                   for idx, info in enumerate(INFO)
+                   if info.get("err") is None
+                   for k in range(len(info["kinds"])) for kind in KINDS]
+        floor = [j for j in alljobs if structural(j)]
+        rest = [j for j in alljobs if not structural(j)]
         if not run.thorough:
-            # bounded by time: most revealing positions first
-            def prio(j):
-                kd = INFO[j[0]]["kinds"][j[1]]
-                return 0 if kd in ("rename", "close", "open-a", "open-w",
-                                   "unlink") else 1
-            jobs.sort(key=prio)
-            jobs = jobs[:6000]
+            run.rng.shuffle(rest)
+            rest = rest[:6000]
 
         class R:
             def __init__(self):
@@ -1952,17 +2304,35 @@ def search(run, broken):
                 if self.found is None and f is None:
                     self.found = dict(case=c, desc=d)
         r = R()
-        t_end = time.time() + float(os.environ.get(
+        box = float(os.environ.get(
             "VERIF_C10_SEARCH_SECS", "900" if run.thorough else "30"))
-        for res in _POOL.imap_unordered(
-                _job, [("fault_job", j) for j in jobs], chunksize=4):
-            if "crash" in res:
-                continue
-            judge(r, res["job"][0], res)
-            if r.found:
-                return r.found
-            if time.time() > t_end:
-                break
+        cap = float(os.environ.get("VERIF_C10_FLOOR_CAP",
+                                   "1500" if run.thorough else "300"))
+        for part, limit, is_floor in ((floor, cap, True), (rest, box, False)):
+            t_end = time.time() + limit
+            done = 0
+            import multiprocessing
+            it = _POOL.imap_unordered(
+                _job, [("fault_job", j) for j in part], chunksize=2)
+            while done < len(part):
+                try:
+                    res = it.next(timeout=max(0.1, t_end - time.time()))
+                except (multiprocessing.TimeoutError, StopIteration):
+                    break
+                done += 1
+                if "crash" in res:
+                    continue
+                judge(r, res["job"][0], res)
+                if r.found:
+                    return r.found
+                if time.time() > t_end:
+                    break
+            if is_floor and done < len(part):
+                run.broken.append((
+                    "search-floor(C10)",
+                    "only %d of %d structural fault runs finished within "
+                    "%.0f s" % (done, len(part), limit)))
+                restart_pool()
         # faulty tasks may also simply fail / misbehave without any fault
         for idx, info in enumerate(INFO):
             if info.get("err") is not None:
